@@ -318,6 +318,46 @@ def directed_nested_duplicates(ctx):
                 yield c
 
 
+def directed_nested_same_class(ctx):
+    """a fixed grid: an object that contains objects of its own class (Group(Shape) with members:
+    List[Shape], groups inside groups) and an unknown key / a wrong scalar at the outer, the middle and the
+    innermost level - the constructor of the outer object finishes its checks after the inner ones ran"""
+    yaml, yatiml = L.setup()
+    rng = ctx.rng
+    S = G.S
+    P = lambda nm, t, **kw: dict(name=nm, type=t, **kw)   # noqa: E731
+
+    def plain(name, bases, params):
+        return dict(name=name, bases=bases, registered=True, kind='plain', params=params, all_params=params,
+                    extra=False, abstract=None, define_init=True)
+    shape = plain('Shape', [], [P('name', ('str',))])
+    circle = plain('Circle', ['Shape'], [P('name', ('str',)), P('radius', ('float',))])
+    group = plain('Group', ['Shape'], [P('name', ('str',)), P('members', ('seq', 'list', ('cls', 'Shape')))])
+
+    def circ(n):
+        return ('m', [(S('name'), S(n)), (S('radius'), S('1.5'))], None)
+
+    def grp(n, ms):
+        return ('m', [(S('name'), S(n)), (S('members'), ('q', ms, None))], None)
+    doc = grp('outer', [circ('c0'), grp('middle', [grp('inner', [circ('c1')]), circ('c2')]), circ('c3')])
+    mpaths = [(), (1, 1, 1), (1, 1, 1, 1, 1, 0), (1, 1, 0), (1, 1, 1, 1, 1, 0, 1, 1, 0)]
+    for t in (('cls', 'Group'), ('cls', 'Shape')):
+        for mp in mpaths:
+            m = G.get_at_path(doc, mp)
+            for i in (0, len(m[1])):
+                try:
+                    c = L.build_case(rng, yaml, yatiml, [shape, circle, group], t, doc, ('directed-nested-same-class',))
+                    L.run_case(c, yaml)
+                except Exception as e:  # noqa
+                    ctx.count('gen_error:' + type(e).__name__)
+                    continue
+                pairs = list(m[1])
+                pairs.insert(i, (S('bogus_key'), S('1')))
+                c.forced = (G.replace_at(doc, mp, lambda d: ('m', pairs, m[2])), ('add', mp + (i, 0), mp), 'bogus_key')
+                ctx.count('directed_nested_same_class')
+                yield c
+
+
 def explore(ctx):
     yaml, yatiml = L.setup()
     rng = ctx.rng
@@ -346,7 +386,8 @@ def explore(ctx):
     # strong claim: hierarchy-free models, block style, one corruption
     n = 0
     for c in itertools.chain(LC.gen_cases(ctx, ctx.budget(500, 10000), mutate_p=0.0, model_filter=hierarchy_free,
-                                          alias_p=0), directed_one_or_many(ctx), directed_nested_duplicates(ctx)):
+                                          alias_p=0), directed_one_or_many(ctx), directed_nested_duplicates(ctx),
+                             directed_nested_same_class(ctx)):
         if c.doc is None or c.real_out[0] != 'ok':
             if getattr(c, 'forced', None):
                 ctx.count('directed_base_not_ok')
